@@ -1290,6 +1290,11 @@ fn gen_c18b(rng: &mut Rng) -> Plan {
         plan.connect_via_opt = rng.chance(1, 2);
     }
     plan.net = gen::gen_net(rng);
+    // a slow server (busy, starting up, far away): the greeting and the verdict on the password
+    // take seconds to minutes; a valid greeting is a valid greeting whenever it arrives
+    if rng.chance(1, 15) {
+        plan.handshake_delay_ms = *rng.pick(&[1_500u32, 5_500, 10_500, 31_000, 61_000, 125_000, 601_000]);
+    }
     // the handshake is over once the greeting (and the server's verdict on the password) has
     // been received; what happens to the transport afterwards belongs to the session, not to
     // connecting. In a share of the plans the write side breaks at that very moment — the
